@@ -96,6 +96,38 @@ class ModuleRaise:
         return False
 
 
+_CLEANUP = {}
+
+
+def cleanup_lines(filename):
+    """Lines at which an asynchronous exception makes *any* Python program leak: the header line of a `with`
+    statement (Python attributes the block's exit sequence to it, so a trace event there fires between the
+    end of the body and the call of `__exit__`) and the bodies of `finally` clauses. No code can defend
+    against an exception there (quanto's `with torch._C.DisableTorchFunctionSubclass():` left torch-function
+    dispatch disabled for the whole process when one landed on its exit), and DESIGN section 2 keeps faults
+    inside enter/exit out of scope; they are not fault points."""
+    got = _CLEANUP.get(filename)
+    if got is None:
+        import ast
+
+        got = set()
+        try:
+            with open(filename) as f:
+                tree = ast.parse(f.read())
+            for node in ast.walk(tree):
+                if isinstance(node, (ast.With, ast.AsyncWith)):
+                    first = node.lineno
+                    last = max([first] + [getattr(i.context_expr, "end_lineno", first) for i in node.items])
+                    got.update(range(first, last + 1))
+                elif isinstance(node, ast.Try):
+                    for st in node.finalbody:
+                        got.update(range(st.lineno, getattr(st, "end_lineno", st.lineno) + 1))
+        except Exception:
+            pass
+        _CLEANUP[filename] = got
+    return got
+
+
 class LineRaise:
     """Raise at the k-th traced `line` event in a frame whose code lives under optimum/quanto.
 
@@ -115,6 +147,8 @@ class LineRaise:
 
     def _local(self, frame, event, arg):
         if event == "line" and not self.fired:
+            if frame.f_lineno in cleanup_lines(frame.f_code.co_filename):
+                return self._local  # not a fault point: see cleanup_lines
             self.points += 1
             if self.k is not None and self.points == self.k:
                 self.fired = True
